@@ -710,6 +710,83 @@ example : runx (.fin 1) 3 3 = some ([2, 5, 1], some 3) := by decide +kernel
 example : runx (.fin 2) 1 2 = some ([0, 3], none) := by decide +kernel
 example : runx (.fin 3) 7 0 = some ([], none) := by decide +kernel
 
+/-! ### the code before `fix: Scanner::max prunes better hits …`: the invariant `Bd` is what fails
+
+  `maxCandOld` is the candidate loop as it was (`best_discrete = dscore`, an OVER-estimate of the
+  best score).  On the instance below it returns position 1 (score 1/50) although position 6
+  scores 1/10: after accepting position 1 the bound is its 8-bit score 2 = ⌈0.1⌉ + ⌈0.1⌉, and the
+  block holding position 6, whose 8-bit score is 1 = ⌈1⌉ + 0, is skipped. -/
+
+/-- the candidate loop of `max` before the repair (only the bound update differs) -/
+def maxCandOld {α : Type} [ScanScalar α] {C : Nat} (k : Kernels α C) (t : α) (row : Nat) (ds : Scores C) :
+    List (Nat × Nat) → Option (Hit α) × UInt8 → Except String (Option (Hit α) × UInt8)
+  | [], s => .ok s
+  | (r, c) :: cs, (best, bd) =>
+    let dscore := ds.data.get r c
+    if dscore ≥ bd then
+      let index := c * k.seqRows + row + r
+      if index < ds.maxIndex then
+        match k.scorePosition index with
+        | .error e => .error e
+        | .ok score =>
+          match best with
+          | some hit =>
+            if gt score hit.score || (ScanScalar.eq score hit.score && decide (index > hit.position)) then
+              maxCandOld k t row ds cs (some ⟨index, score⟩, dscore)
+            else maxCandOld k t row ds cs (best, bd)
+          | none =>
+            if ge score t then maxCandOld k t row ds cs (some ⟨index, score⟩, bd)
+            else maxCandOld k t row ds cs (best, bd)
+      else maxCandOld k t row ds cs (best, bd)
+    else maxCandOld k t row ds cs (best, bd)
+
+def maxLoopOld {α : Type} [ScanScalar α] {C : Nat} (k : Kernels α C) (t : α) (block : Nat) :
+    Nat → MaxState α → Except String (MaxState α)
+  | 0, _ => .error "no-progress"
+  | fuel + 1, s =>
+    if s.row < k.seqRows then
+      match k.scoreRows s.row (min (s.row + block) k.seqRows) with
+      | .error e => .error e
+      | .ok ds =>
+        let r : Except String (Option (Hit α) × UInt8) :=
+          match k.max ds with
+          | some m =>
+            if m ≥ s.bd then maxCandOld k t s.row ds (k.threshold ds s.bd) (s.best, s.bd)
+            else .ok (s.best, s.bd)
+          | none => .ok (s.best, s.bd)
+        match r with
+        | .error e => .error e
+        | .ok (best, bd) => maxLoopOld k t block fuel ⟨s.row + block, best, bd⟩
+    else .ok s
+
+/-- rows `[0, 1/100, 1/10, 20 | −∞]` and `[0, 1/100, 0, 11/2 | −∞]`: `factor = 25.5/255 = 1/10` -/
+def pnt : Mat ERat 5 := Mat.ofFn 2 fun i j =>
+  if j = 4 then .bot else
+  if i = 0 then (if j = 1 then .fin (1/100) else if j = 2 then .fin (1/10) else if j = 3 then .fin 20 else .fin 0)
+  else (if j = 1 then .fin (1/100) else if j = 3 then .fin (11/2) else .fin 0)
+
+/-- `A C C A A A T A`: position 1 (`C C`) scores 1/50, position 6 (`T A`) scores 1/10 -/
+def snt : List Nat := [0, 1, 1, 0, 0, 0, 2, 0]
+def stnt : Striped 2 := (stripeGeneric 4 snt Striped.empty).configureWrap 4 1
+
+/-- (answer of the loop before the repair, answer of `max` now), positions only; block size 1,
+    threshold 0 -/
+def runnt : Option (Option Nat × Option Nat) :=
+  match toDiscrete pnt with
+  | .ok dm =>
+    let k := kernels pnt dm stnt .generic .saturating
+    match maxLoopOld k (.fin 0) 1 (k.seqRows + 1) ⟨0, none, k.scale (.fin 0)⟩,
+          Scanner.max k (.fin 0) 1 State.init with
+    | .ok s, .ok r => some (s.best.map (·.position), r.map (·.position))
+    | _, _ => none
+  | .error _ => none
+
+/-- the old bound update loses the best hit on this input; the repaired `max` finds it -/
+theorem old_bound_counterexample :
+    runnt = some (some 1, some 6) ∧
+      scoreAt pnt snt 1 = .fin (1/50) ∧ scoreAt pnt snt 6 = .fin (1/10) := by
+  refine ⟨by decide +kernel, by decide +kernel, by decide +kernel⟩
+
 end concrete
 
 end C03
